@@ -51,7 +51,61 @@ func queueFn(goName, lean string) *facts.FnSpec {
 		Doc: "State: `queue`, `depth`, `token` = content of `depthChan`, `locked` = the mutex is held."}
 }
 
+// channel/read.go: the ReadUntil* loops over an event list (ScrapliModel/ChannelEv.lean). The two
+// external steps of an iteration — the non-blocking poll of ctx.Done() and c.Read() — are templated
+// steps over the head event; time.Sleep is a no-op; everything else is ordinary subset code.
+func readUntilFn(goName, lean string, extraBinders, extraArgs string, skip []string, extraFuncs map[string]facts.LibFn,
+	extraVals map[string]facts.Val, captures []string) *facts.FnSpec {
+	f := &facts.FnSpec{Dir: "channel", Recv: "Channel", Name: goName, Lean: lean,
+		Doc: "`evs` = the events this call may consume (state: what is left of them); `cfg.depth` = `c.PromptSearchDepth`, " +
+			"`cfg.promptP` = `c.PromptPattern.Match`. Out of events = `none`.",
+		Binders: "(cfg : Chan.Cfg)" + extraBinders, BinderArgs: "cfg" + extraArgs,
+		SkipParams: append([]string{"ctx"}, skip...), Partial: true, InlineInvariant: true, Captures: captures,
+		Vals: map[string]facts.Val{
+			"recv.PromptSearchDepth": {Lean: "((cfg.depth : Nat) : Int)", Ty: "int"},
+			"nb == nil":              {Lean: "nbNil", Ty: "bool"},
+		},
+		Funcs: map[string]facts.LibFn{
+			"processReadBuf": {Args: []string{"bytes", "int"}, Ret: []string{"bytes"}, Partial: true,
+				Tmpl: "(Gen.Bodies.Channel.processReadBuf %0 %1)"},
+			"getProcessReadBufSearchDepth": {Args: []string{"int", "int"}, Ret: []string{"int"},
+				Tmpl: "(Gen.Bodies.Channel.getProcessReadBufSearchDepth %0 %1)"},
+			"util.BytesRoughlyContains": {Args: []string{"bytes", "bytes"}, Ret: []string{"bool"}, Partial: true,
+				Tmpl: "(Gen.Bodies.Util.bytesRoughlyContains %0 %1)"},
+			"recv.PromptPattern.Match": {Args: []string{"bytes"}, Ret: []string{"bool"}, Tmpl: "(cfg.promptP %0)"},
+		},
+		Steps: map[string]facts.Step{
+			"select <-ctx.Done() => return nil, ctx.Err() | default =>": {Assigns: []string{"evs"}, Pre: []string{
+				"match evs with", "| [] => %PANIC", "| ev :: evs => (",
+				"if ev.isCancelled then %RETURN{([] : Bytes); (some \"ctx.Err()\" : Go.Error)} else"}, Post: ")"},
+			"%v0, %v1 := recv.Read()":   {BindTys: []string{"bytes", "error"}, Pre: []string{"let (%v0, nbNil, %v1) := Chan.Ev.read ev"}, Assigns: []string{}},
+			"time.Sleep(recv.ReadDelay)": {},
+		},
+		State: []facts.StateVar{{Key: "«events»", Lean: "evs", Ty: "opaque:List Chan.Ev"}},
+	}
+	for k, v := range extraFuncs {
+		f.Funcs[k] = v
+	}
+	for k, v := range extraVals {
+		f.Vals[k] = v
+	}
+	return f
+}
+
 var bodyFiles = map[string]*facts.BodyFile{
+	// C01 (C05, C12): channel/read.go ReadUntil*
+	"BodiesRead.lean": {
+		Imports:   []string{"ScrapliModel.ChannelEv", "ScrapliModel.Generated.BodiesChannel", "ScrapliModel.Generated.BodiesUtil"},
+		Namespace: "Scrapli.Gen.Bodies.Read",
+		Fns: []*facts.FnSpec{
+			readUntilFn("ReadUntilFuzzy", "readUntilFuzzy", "", "", nil, nil, nil, nil),
+			readUntilFn("ReadUntilExplicit", "readUntilExplicit", "", "", nil, nil, nil, nil),
+			readUntilFn("ReadUntilPrompt", "readUntilPrompt", "", "", nil, nil, nil, nil),
+			readUntilFn("ReadUntilAnyPrompt", "readUntilAnyPrompt", " (prompts : List (Bytes → Bool))", " prompts", []string{"prompts"},
+				map[string]facts.LibFn{"p.Match": {Args: []string{"bytes"}, Ret: []string{"bool"}, Tmpl: "(p %0)"}},
+				map[string]facts.Val{"prompts": {Lean: "prompts", Ty: "olist:Bytes → Bool"}}, []string{"p"}),
+		},
+	},
 	// C20: util/queue.go
 	"BodiesQueue.lean": {
 		Imports:   []string{"ScrapliModel.Queue"},
